@@ -36,7 +36,7 @@ def rule_masks(repo, rid_mp, rid_gd, targets, floor, exceptions=None):
             if defect is not None:
                 mp.add(Finding(rid_mp, f, 'mask group `%s` (%d branches) is not a partition: %s' % (label, len(g.members), defect),
                                node=node, construct='%s group %s/%d' % (g.kind, g.target or 'sum', len(g.members))))
-            defects = masks.gd_defects(g, guards)
+            defects = masks.gd_defects(g, guards) if g.kind != 'where' else []
             gd.inst({'function': f.fq, 'group': label, 'guards': len(guards), 'gather_defects': len(defects)}, (f.fq, label, gi))
             seen = set()
             for mi, msg, root in defects:
